@@ -184,6 +184,9 @@ struct app {
         return true;
     }
 
+    // the cooperative suffix may stop early only when the client is connected again (or was ended by the application)
+    bool quiet() const { return all_ops_done() && br.obl.empty() && (terminal_issued || !c || br.has_live_connection()); }
+
     op_rec& new_op(int id, const std::string& kind) {
         auto& o = ops[id]; o.id = id; o.kind = kind; o.sig = std::make_unique<asio::cancellation_signal>();
         return o;
@@ -427,12 +430,12 @@ struct app {
         int64_t target = vt::g_now_ns + ms * 1000000;
         for (int guard = 0; guard < 100000 && !aborted; ++guard) {
             settle();
-            if (stop_when_done && all_ops_done() && br.obl.empty()) break;
+            if (stop_when_done && quiet()) break;
             int64_t nd = vt::timer_registry::get().next_deadline();
             if (nd == vt::NEVER || nd > target) break;
             fire_one();
         }
-        if (!stop_when_done || !(all_ops_done() && br.obl.empty())) if (vt::g_now_ns < target) vt::g_now_ns = target;
+        if (!stop_when_done || !quiet()) if (vt::g_now_ns < target) vt::g_now_ns = target;
         settle();
     }
 
